@@ -1,7 +1,7 @@
 (* Direct oracle for C09: the implementation's result buffer must equal the spec-level image written into the
    selected column (every other word unchanged).  Expected limbs are computed from Poly.v / plain limb-wise
    arithmetic and the documented size rule, not from the code-shaped model. *)
-From PV Require Import Base.MachineInt Model.Znx Model.Limbs Model.Flat Model.Ring Model.Poly Model.C09Run.
+From PV Require Import Base.MachineInt Model.Znx Model.Limbs Model.Flat Model.Ring Model.Poly Model.C09Run Model.C09Big.
 Open Scope Z_scope.
 
 Definition obz (b : bool) : Z := if b then 1 else 0.
@@ -42,6 +42,7 @@ Definition oracle_c09 (code : Z) (ps : list Z) (vs outs : list (list Z)) : Z :=
   let w := 64 in
   let rs := shp ps 0 in let sa := shp ps 1 in let sb := shp ps 2 in
   let n := s_n rs in
+  if (9100 <=? code) && (code <? 9200) then oracle_c09_big code ps vs outs else
   if code =? 9020 then
     let a := getcol sa (v vs 1) in let r0 := getcol rs (v vs 0) in
     let f := fun l => if Nat.eqb (s_n sa) n then l else if Nat.ltb n (s_n sa) then subsample n l else embed n l in
